@@ -18,7 +18,7 @@ type Scope struct {
 	Roots     []*ssa.Function
 	RootWhy   map[*ssa.Function]string
 	F         map[*ssa.Function]bool
-	Handlers  []*ssa.Function // registered RPC methods
+	Handlers  []*ssa.Function                         // registered RPC methods
 	Sites     map[*ssa.Function][]ssa.CallInstruction // static call sites inside F
 	GoTargets map[*ssa.Function]bool                  // functions started by a go statement
 }
@@ -308,6 +308,13 @@ func writesOf(fn *ssa.Function) []writeTarget {
 					mk(in, cc.Args[0], "copy")
 				case "clear":
 					mk(in, cc.Args[0], "clear")
+				case "append":
+					// append writes into the backing array of its first argument whenever there is spare capacity:
+					// when that slice was loaded from memory (a field, a global, a map or slice element) this is a write
+					// to whatever the holder of that memory shares
+					for _, src := range sliceSources(cc.Args[0]) {
+						mk(in, src, "append")
+					}
 				}
 				return
 			}
@@ -339,4 +346,40 @@ func isAtomicOnly(v ssa.Value) bool {
 		}
 	}
 	return true
+}
+
+// sliceSources follows a slice value back through phis, re-slicing and earlier appends to the memory locations it was
+// loaded from (none for slices made in the function).
+func sliceSources(v ssa.Value) []ssa.Value {
+	var out []ssa.Value
+	seen := map[ssa.Value]bool{}
+	var walk func(v ssa.Value)
+	walk = func(v ssa.Value) {
+		if seen[v] {
+			return
+		}
+		seen[v] = true
+		switch x := v.(type) {
+		case *ssa.Phi:
+			for _, e := range x.Edges {
+				walk(e)
+			}
+		case *ssa.Slice:
+			if _, isArr := x.X.Type().Underlying().(*types.Pointer); !isArr {
+				walk(x.X)
+			}
+		case *ssa.ChangeType:
+			walk(x.X)
+		case *ssa.Call:
+			if b, ok := x.Call.Value.(*ssa.Builtin); ok && b.Name() == "append" {
+				walk(x.Call.Args[0])
+			}
+		case *ssa.UnOp:
+			if x.Op == token.MUL {
+				out = append(out, x.X)
+			}
+		}
+	}
+	walk(v)
+	return out
 }
